@@ -31,7 +31,13 @@ def run_one(scratch, m):
     src = open(path).read()
     if m['old'] not in src:
         return (m['name'], 'STALE', 'old text not found in ' + m['file'])
-    open(path, 'w').write(src.replace(m['old'], m['new'], 1))
+    new = src.replace(m['old'], m['new'], 1)
+    # further edits of the same file (a change made of two cooperating sites)
+    for o, n in m.get('also', []):
+        if o not in new:
+            return (m['name'], 'STALE', 'additional old text not found in ' + m['file'])
+        new = new.replace(o, n, 1)
+    open(path, 'w').write(new)
     try:
         b = subprocess.run(['go', 'build', './...'], cwd=repo, env=env, capture_output=True, text=True)
         if b.returncode != 0:
